@@ -113,8 +113,9 @@ class Phi:
 
 class Vec:
     """numpy array of known length: element-wise arithmetic, sum() adds."""
-    def __init__(self, items):
+    def __init__(self, items, col=False):
         self.items = list(items)
+        self.col = col      # shape (M, 1): produced by x[:, None]
 
     def __len__(self):
         return len(self.items)
